@@ -4,6 +4,7 @@
    The text mirrored is the repaired one (see known_findings/C10.json); the `_pinned` variants mirror f87a9e4
    where a repair changed a routine. *)
 From V.lib Require Import Base.
+From V.c08 Require C08Model.
 From V.c09 Require Import C09Model.
 
 Definition firstnN {A} (l : list A) (k : N) : list A := firstn (N.to_nat k) l.
@@ -99,7 +100,13 @@ Definition crop_stsz (z : stsz_box) (last : N) : res stsz_box :=
 Definition crop_sdtp (l : list N) (last : N) : list N :=
   if last <? lenN l then firstnN l last else l.
 
-Definition update_stco (offs : list N) : list N := map u32 offs.
+(* updateStco (repaired text, 864f0da): an offset that does not fit in 32 bits is an error; it was truncated *)
+Fixpoint update_stco (offs : list N) : res (list N) :=
+  match offs with
+  | [] => Ok []
+  | o :: t => if 4294967295 <? o then Err else do t' <- update_stco t; Ok (o :: t')
+  end.
+Definition update_stco_pinned (offs : list N) : list N := map u32 offs.
 Definition update_co64 (offs : list N) : list N := offs.
 
 (* cropStblChildren for one track, given the new chunk offsets *)
@@ -108,8 +115,8 @@ Definition crop_tables (tb : tables) (last : N) (new_offsets : list N) : res tab
   do ct <- match t_ctts tb with None => Ok None | Some c => do c' <- crop_ctts c last; Ok (Some c') end;
   do sc <- crop_stsc (t_stsc tb) last;
   do sz <- crop_stsz (t_stsz tb) last;
-  Ok (mkTables (fst st) (snd st) ct sc sz
-               (match t_stco tb with Some _ => Some (update_stco new_offsets) | None => None end)
+  do so <- match t_stco tb with Some _ => do l <- update_stco new_offsets; Ok (Some l) | None => Ok None end;
+  Ok (mkTables (fst st) (snd st) ct sc sz so
                (match t_co64 tb with Some _ => Some (update_co64 new_offsets) | None => None end)
                (match t_stss tb with Some l => Some (crop_stss l last) | None => None end)
                (match t_sdtp tb with Some l => Some (crop_sdtp l last) | None => None end)).
@@ -230,3 +237,132 @@ Fixpoint fill_loop (fuel : nat) (ts : list trak_state) (rs : list (N * N)) (firs
                                                (u32 (ts_next t + 1)) (ts_offsets t ++ [cur'])) in
       fill_loop f ts' rs' firstOff' (u64 (cur' + sz))
   end.
+
+(* the fuel handed to the loop by the theorems and by the extracted driver: one iteration per kept chunk + the final one *)
+Definition fill_fuel (ts : list trak_state) : nat := S (N.to_nat (sumN (map ts_last_chunk ts))).
+
+(* ---------- updateChunkOffsets ---------- *)
+(* swm = sizeWithoutMdat (sum of the sizes of the non-mdat top-level boxes, after cropping), h = the header size the
+   code assumes for the mdat box it is going to write (the Go text has the literal 8), first = firstOffset.
+   deltaOffset := int64(mdatStart + h) - int64(firstOffset), as a 64-bit pattern *)
+Definition shift_delta (h swm first : N) : N := sub64 (u64 (u64 swm + h)) first.
+
+(* stco (repaired text, 864f0da): newOffset := int64(o) + delta; newOffset < 0 || newOffset > MaxUint32 is an error.
+   As a 64-bit pattern: the sum, reduced mod 2^64, is >= 2^32 *)
+Fixpoint shift_stco (delta : N) (offs : list N) : res (list N) :=
+  match offs with
+  | [] => Ok []
+  | o :: t => let v := u64 (o + delta) in
+              if 4294967296 <=? v then Err else do t' <- shift_stco delta t; Ok (v :: t')
+  end.
+(* as pinned (f87a9e4): uint32(int64(o) + delta) *)
+Definition shift_stco_pinned (delta : N) (offs : list N) : list N := map (fun o => u32 (u64 (o + delta))) offs.
+Definition shift_co64 (delta : N) (offs : list N) : list N := map (fun o => u64 (o + delta)) offs.
+
+Definition set_offsets (tb : tables) (stco co64 : option (list N)) : tables :=
+  mkTables (t_stts_count tb) (t_stts_delta tb) (t_ctts tb) (t_stsc tb) (t_stsz tb) stco co64 (t_stss tb) (t_sdtp tb).
+
+Definition shift_track (delta : N) (tb : tables) : res tables :=
+  match t_stco tb with
+  | Some l => do l' <- shift_stco delta l; Ok (set_offsets tb (Some l') (t_co64 tb))
+  | None => match t_co64 tb with
+            | Some l => Ok (set_offsets tb None (Some (shift_co64 delta l)))
+            | None => Panic                                (* co64 == nil: nil dereference *)
+            end
+  end.
+
+Fixpoint shift_tracks (delta : N) (tbs : list tables) : res (list tables) :=
+  match tbs with
+  | [] => Ok []
+  | tb :: t => do tb' <- shift_track delta tb; do t' <- shift_tracks delta t; Ok (tb' :: t')
+  end.
+
+Definition mdat_out_hdr : N := 8.       (* `mdatPayloadStart := mdatStart + 8`; writeMdat writes EncodeHeaderWithSize(.., false) *)
+Definition update_chunk_offsets_h (h swm first : N) (tbs : list tables) : res (list tables) :=
+  shift_tracks (shift_delta h swm first) tbs.
+Definition update_chunk_offsets := update_chunk_offsets_h mdat_out_hdr.
+
+(* ---------- writeUptoMdat: the duration arithmetic ---------- *)
+(* one track = (tkhd duration, mdhd duration, edts: None | Some (one list of segment durations per elst box)) *)
+Definition hdr_trak := (N * N * option (list (list N)))%type.
+
+Definition upd_seg (durDiff d : N) : N := if durDiff <? d then sub64 d durDiff else d.
+
+Fixpoint hdr_traks (newDur : N) (tks : list hdr_trak) : res (list hdr_trak) :=
+  match tks with
+  | [] => Ok []
+  | (prev, md, ed) :: r =>
+    if prev <? newDur then Err
+    else
+      let diff := sub64 prev newDur in
+      do r' <- hdr_traks newDur r;
+      Ok ((newDur, md, match ed with Some gs => Some (map (map (upd_seg diff)) gs) | None => None end) :: r')
+  end.
+
+(* (new mvhd duration, tracks) *)
+Definition write_upto_mdat_durs (endTime endTimescale mvTimescale : N) (tks : list hdr_trak) : res (N * list hdr_trak) :=
+  do nd <- div_go (u64 (endTime * mvTimescale)) endTimescale;
+  do tks' <- hdr_traks nd tks;
+  Ok (nd, tks').
+
+(* ---------- writeMdat ---------- *)
+(* byteRanges.size() *)
+Fixpoint ranges_size (rs : list (N * N)) (tot : N) : N :=
+  match rs with
+  | [] => tot
+  | (s, e) :: t => ranges_size t (u64 (tot + u64 (sub64 e s + 1)))
+  end.
+
+(* the loop over the ranges: mdatIn.CopyData(int64(start), int64(end-start+1), ifh, w) (C08's model of CopyData) *)
+Fixpoint copy_ranges (file : list N) (zeof : bool) (m : C08Model.mdat) (rs : list (N * N)) : res (list N) :=
+  match rs with
+  | [] => Ok []
+  | (s, e) :: t =>
+    do d <- C08Model.copy_data true file zeof m (C08Model.i64n s) (C08Model.i64n (u64 (sub64 e s + 1)))
+                               (Some (C08Model.mkRS 0 []));
+    do rest <- copy_ranges file zeof m t;
+    Ok (d ++ rest)
+  end.
+
+(* the bytes written: header + payload *)
+Definition write_mdat (file : list N) (zeof : bool) (m : C08Model.mdat) (rs : list (N * N)) : res (list N) :=
+  let psz := ranges_size rs 0 in
+  if 4294967296 <=? u64 (psz + 8) then Err
+  else
+    do h <- C08Model.encode_header_with_size (u64 (psz + 8)) false;
+    do body <- copy_ranges file zeof m rs;
+    if lenN body =? psz then Ok (h ++ body) else Err.
+
+(* ---------- cropToTime without the box encoding: tables, byte ranges, firstOffset ---------- *)
+Record trak_in := mkTI { ti_id : N; ti_ts : N; ti_tb : tables }.
+
+Fixpoint trak_ends (traks : list trak_in) (endTime endTimescale : N) : res (list trak_state) :=
+  match traks with
+  | [] => Ok []
+  | t :: r =>
+    do e <- find_trak_end (ti_tb t) (ti_ts t) endTime endTimescale;
+    do r' <- trak_ends r endTime endTimescale;
+    Ok (mkTS (ti_id t) (ti_tb t) (fst (fst e)) (ch_nr (snd e)) 1 [] :: r')
+  end.
+
+Fixpoint crop_all (ts : list trak_state) : res (list tables) :=
+  match ts with
+  | [] => Ok []
+  | t :: r => do tb' <- crop_tables (ts_tb t) (ts_last_sample t) (ts_offsets t); do r' <- crop_all r; Ok (tb' :: r')
+  end.
+
+(* result: (new tables per track, byte ranges, samples kept per track) *)
+Definition crop_to_time (traks : list trak_in) (endTime endTimescale swm : N)
+  : res (list tables * list (N * N) * list N) :=
+  do ts0 <- trak_ends traks endTime endTimescale;
+  do r <- fill_loop (fill_fuel ts0) ts0 [] 0 0;
+  let '(ts', ranges, first) := r in
+  do cropped <- crop_all ts';
+  do shifted <- update_chunk_offsets swm first cropped;
+  Ok (shifted, ranges, map ts_last_sample ts').
+
+(* cropMP4: ref = the reference track (first video track, else first audio track) *)
+Definition crop_mp4 (ref : trak_in) (traks : list trak_in) (ms swm : N) : res (N * (list tables * list (N * N) * list N)) :=
+  do et <- find_end_time (ti_tb ref) (ti_ts ref) ms;
+  do r <- crop_to_time traks et (ti_ts ref) swm;
+  Ok (et, r).
